@@ -7,6 +7,7 @@ import (
 	"os"
 	"reflect"
 	"strings"
+	"time"
 
 	"github.com/akrennmair/updog"
 	"github.com/akrennmair/updog/zverif/internal/vx"
@@ -25,6 +26,9 @@ type libRec struct {
 	n      int
 	hashOn bool
 	obs    map[int]*vx.ObsCounter // per path: observations of the ExecuteDuration metric of the open handle
+
+	hangs    int // Flush calls that did not return in time: recording stops after two (each costs a minute)
+	mapReuse int // writers created so far: every other one gets its rows through one re-used map
 }
 
 func (r *libRec) path(p int) string {
@@ -85,12 +89,31 @@ func (r *libRec) addRows(p int, w *vx.Writer, rows []vx.Row) error {
 			j = len(rows)
 		}
 		ids := make([]int, 0, j-i)
+		// the caller's map belongs to the caller: in every other scenario one map is cleared and refilled for each row
+		// (AddRow must have taken what it needs by the time it returns)
+		reuse := r.mapReuse%2 == 1
+		shared := map[string]string{}
 		for _, row := range rows[i:j] {
-			id, err := w.AddRow(r.dict.RowMap(row))
+			m := r.dict.RowMap(row)
+			if reuse {
+				for k := range shared {
+					delete(shared, k)
+				}
+				for k, v := range m {
+					shared[k] = v
+				}
+				m = shared
+			}
+			id, err := w.AddRow(m)
 			if err != nil {
 				return err
 			}
 			ids = append(ids, int(id))
+		}
+		if reuse {
+			for k := range shared {
+				shared[k] = "overwritten after AddRow returned"
+			}
 		}
 		r.out.Emit(map[string]any{"ev": "AddRows", "p": p, "rows": rowsToJSON(rows[i:j]), "ids": ids})
 	}
@@ -98,6 +121,7 @@ func (r *libRec) addRows(p int, w *vx.Writer, rows []vx.Row) error {
 }
 
 func (r *libRec) newWriter(p int, kind string) (*vx.Writer, bool) {
+	r.mapReuse++
 	w, err := vx.NewWriter(kind, r.path(p))
 	r.out.Emit(map[string]any{"ev": "NewWriter", "p": p, "kind": kind, "ok": err == nil, "fh": r.fh(p)})
 	return w, err == nil
@@ -105,7 +129,12 @@ func (r *libRec) newWriter(p int, kind string) (*vx.Writer, bool) {
 
 func (r *libRec) flush(p int, w *vx.Writer) bool {
 	err := w.Flush()
-	r.out.Emit(map[string]any{"ev": "Flush", "p": p, "ok": err == nil, "fh": r.fh(p)})
+	// a Flush that did not return within the harness' time limit is not an orderly failure
+	hang := err != nil && strings.Contains(err.Error(), "(hang)")
+	if hang {
+		r.hangs++
+	}
+	r.out.Emit(map[string]any{"ev": "Flush", "p": p, "ok": err == nil, "hang": hang, "fh": r.fh(p)})
 	return err == nil
 }
 
@@ -260,6 +289,9 @@ func recordLib(args []string) error {
 	case "small":
 		for i := 0; i < *runs; i++ {
 			r.scenarioSmall(i)
+			if r.hangs >= 2 {
+				break
+			}
 		}
 	case "boundary", "large":
 		for i, n := range sz {
@@ -276,14 +308,23 @@ func recordLib(args []string) error {
 	case "reuse":
 		for i := 0; i < *runs; i++ {
 			r.scenarioReuse(i)
+			if r.hangs >= 2 {
+				break
+			}
 		}
 	case "clobber":
 		for i := 0; i < *runs; i++ {
 			r.scenarioClobber(i)
+			if r.hangs >= 2 {
+				break
+			}
 		}
 	case "overlap":
 		for i := 0; i < *runs; i++ {
 			r.scenarioOverlap(i)
+			if r.hangs >= 2 {
+				break
+			}
 		}
 	default:
 		return fmt.Errorf("unknown scenario %q", *scen)
@@ -606,6 +647,23 @@ func (r *libRec) scenarioReuse(i int) {
 		unchanged := reflect.DeepEqual(hs[k].uq.Expr, hs[k].clone.Expr) && reflect.DeepEqual(hs[k].uq.GroupBy, hs[k].clone.GroupBy)
 		r.out.Emit(map[string]any{"ev": "ExecQ", "p": p, "qid": k + 1, "res": res, "unchanged": unchanged, "fh": -1})
 	}
+	// caller-held expression trees whose comparison leaves are edited in place between executions, on either index:
+	// the query that is executed is the tree as it is at that moment
+	for k := 0; k < 4; k++ {
+		src := vx.CloneExpr(hs[rng.Intn(len(hs))].q.E)
+		var lib []*updog.ExprEqual
+		var ranks []*vx.Expr
+		uq := &updog.Query{Expr: d.ToUpdogWithLeaves(src, &lib, &ranks)}
+		for step := 0; step < 4 && len(lib) > 0; step++ {
+			p := 1 + rng.Intn(2)
+			res := d.ResOf(vx.Exec(idxs[p], uq))
+			r.out.Emit(map[string]any{"ev": "Exec", "p": p, "e": vx.CloneExpr(src), "gb": []int{}, "res": res, "fh": -1})
+			i := rng.Intn(len(lib))
+			nl := leaves[rng.Intn(len(leaves))]
+			ranks[i].Col, ranks[i].Val = nl[0], nl[1]
+			lib[i].Column, lib[i].Value = d.Col(nl[0]), d.Val(nl[1])
+		}
+	}
 	r.close(1, idxs[1])
 	r.close(2, idxs[2])
 }
@@ -646,19 +704,31 @@ func (r *libRec) scenarioClobber(i int) {
 		}
 	}
 	r.out.Emit(map[string]any{"ev": "Plant", "p": p, "fh": r.fh(p)})
+	// the occupant may be in use: a valid index held open by a reader (a server, another handle) while writers are
+	// pointed at its path -- they must still be refused promptly
+	var held *updog.Index
+	if variant == 3 {
+		held, _ = vx.Open(r.path(p), "ondemand", "none", 0)
+	}
 	for _, kind := range []string{"mem", "memdb", "big"} {
 		wr, ok := r.newWriter(p, kind)
 		if !ok {
 			continue
 		}
 		r.addRows(p, wr, rows)
-		if !r.flush(p, wr) {
+		if !r.flush(p, wr) && r.hangs < 2 {
 			// the caller tries again with the same writer: the path still exists, so nothing may change
 			r.flush(p, wr)
 			r.flush(p, wr)
 		}
+		if r.hangs >= 2 {
+			return
+		}
 		// the model has one writer slot per path: start the next attempt from a fresh slot
 		r.out.Emit(map[string]any{"ev": "DropWriter", "p": p})
+	}
+	if held != nil {
+		held.Close()
 	}
 	os.Chmod(r.path(p), 0644)
 	// reading a valid index with every option combination must not modify it
@@ -727,8 +797,24 @@ func (r *libRec) scenarioOverlap(i int) {
 		for _, row := range mk(2) {
 			wb.AddRow(d.RowMap(row))
 		}
-		err := wb.Flush()
-		r.out.Emit(map[string]any{"ev": "FlushOverlap", "p": p, "ok": err == nil})
+		// writer A is held inside its own Flush (this hook) while B flushes: B must come back with an error on its own
+		done := make(chan error, 1)
+		go func() {
+			var ferr error
+			if p := vx.Safely(func() { ferr = wb.Flush() }); p != nil {
+				ferr = fmt.Errorf("panic in Flush: %s", p.Value)
+			}
+			done <- ferr
+		}()
+		var err error
+		hang := false
+		select {
+		case err = <-done:
+		case <-time.After(30 * time.Second):
+			hang, err = true, fmt.Errorf("Flush did not return (hang)")
+			r.hangs++
+		}
+		r.out.Emit(map[string]any{"ev": "FlushOverlap", "p": p, "ok": err == nil, "hang": hang})
 	}
 	r.flush(p, wa)
 	updog.VerifHook = nil
